@@ -462,12 +462,25 @@ func runStringPairs(j *judge, next func() bool) {
 		memo[k] = bits
 		return bits
 	}
+	// a single item first, every two-item sequence second: what the first string
+	// leaves pending (an unpaired surrogate half, a partial escape) meets every
+	// combination of "bytes before" and "escape after" in the second
+	var seconds [][]int
+	for i := range items {
+		for k := range items {
+			seconds = append(seconds, []int{i, k})
+		}
+	}
 	var n int64
-	for _, s1 := range strs {
+	for si, s1 := range strs {
 		if c.Expired("C02 string pairs") {
 			return
 		}
-		for _, s2 := range strs {
+		s2s := strs
+		if si < len(items) {
+			s2s = append(append([][]int{}, strs...), seconds...)
+		}
+		for _, s2 := range s2s {
 			for pi := range pairPlaces {
 				if !next() {
 					continue
